@@ -243,8 +243,10 @@ def check_aranges(ctx, case, ar, sets, exp_entries, tagp='aranges'):
 
 def run_aranges(ctx, case):
     sets = case['sets']
-    sec, exp_entries, layout = T.enc_aranges(case['le'], sets)
+    fmt = case.get('fmt', 32)
+    sec, exp_entries, layout = T.enc_aranges(case['le'], sets, fmt)
     key = ('aranges', case['le'], sec, tuple(case.get('queries', ())))
+    ctx.count('ar.fmt%d' % fmt)
     nonempty_sets = sum(1 for s in sets if s['ranges'])
     ctx.count('fam.aranges')
     ctx.count('ar.sets.%d' % len(sets))
@@ -275,7 +277,14 @@ def run_aranges(ctx, case):
             break
     try:
         di = D.make_dwarfinfo({'.debug_aranges': sec}, case['le'], case.get('default_addr', 8))
-        ar = di.get_aranges()
+        if fmt == 32:
+            ar = di.get_aranges()
+        else:
+            # a table in the 64-bit format is decoded by an ARanges object made with the public constructor and 64-bit structs
+            # (get_aranges() hands the table the 32-bit structs of the DWARFInfo)
+            from elftools.dwarf.aranges import ARanges
+            from elftools.dwarf.structs import DWARFStructs
+            ar = ARanges(io.BytesIO(sec), len(sec), DWARFStructs(little_endian=case['le'], dwarf_format=64, address_size=case.get('default_addr', 8)))
     except Exception as e:  # noqa
         ctx.fail_exc('aranges.parse', e, case)
         ctx.case(key, False)
@@ -987,6 +996,8 @@ def gen_aranges(ch, tier):
             'queries': [ch.word(64) for _ in range(ch.int(0, 3))]}
     if shadow_done:
         case['zl_shadow'] = True
+    if mode != 'mixed' and ch.bool(0.25):
+        case['fmt'] = 64          # one address size per table keeps every set on a multiple of its tuple size with the 24-byte header too
     return case
 
 
@@ -1266,7 +1277,7 @@ def sweep(tier):
 
 def floors(ctx):
     c = ctx.counters
-    need = ['fam.aranges', 'fam.names', 'fam.units', 'fam.farunits', 'nm.slack-behind-terminator', 'ar.le', 'ar.be', 'ar.addr.4', 'ar.addr.8', 'ar.addr.mixed', 'ar.has-empty-set', 'ar.all-empty',
+    need = ['fam.aranges', 'fam.names', 'fam.units', 'fam.farunits', 'ar.fmt64', 'nm.slack-behind-terminator', 'ar.le', 'ar.be', 'ar.addr.4', 'ar.addr.8', 'ar.addr.mixed', 'ar.has-empty-set', 'ar.all-empty',
             'ar.no-sets', 'ar.adjacent-different-units', 'ar.range-at-0', 'ar.range-to-max', 'ar.unsorted-set', 'ar.zero-length-range', 'ar.sets.8',
             'ar.q.first', 'ar.q.last', 'ar.q.inner', 'ar.q.end', 'ar.q.before', 'ar.q.outside',
             'nm.le', 'nm.be', 'nm.sets.0', 'nm.sets.6', 'nm.has-empty-set', 'nm.all-empty', 'nm.non-ascii', 'nm.non-bmp', 'nm.duplicate-family',
